@@ -138,6 +138,13 @@ func keys64(m map[int64]bool) []int64 {
 	return out
 }
 
+func gcd(a, b int) int {
+	for b != 0 {
+		a, b = b, a%b
+	}
+	return a
+}
+
 func c14CutEnum(r *R) {
 	// stream layout
 	hs := 4 + len(c14AddrB) // client handshake carries the advertised address of the mailbox (the peer's)
@@ -147,9 +154,45 @@ func c14CutEnum(r *R) {
 		total += c14FrameLen("m", int64(i), sz)
 		bounds = append(bounds, total)
 	}
+	// Enumeration of the cut offset from the run ordinal. Even ordinals walk the short list of "structural" offsets
+	// (every byte of the handshake, every byte of every length prefix, every frame boundary, and the no-cut control)
+	// and advance the other dimensions each time the list wraps; odd ordinals walk the body offsets with a stride
+	// coprime to their number. A quick batch therefore visits every structural offset with many combinations and a
+	// spread of body offsets; the thorough tier wraps both lists several times.
+	var prio, body []int
+	isPrio := map[int]bool{}
+	for o := 0; o <= hs; o++ {
+		isPrio[o] = true
+	}
+	prev := hs
+	for _, bd := range bounds {
+		for o := prev; o <= prev+4; o++ {
+			isPrio[o] = true
+		}
+		isPrio[bd] = true
+		prev = bd
+	}
+	isPrio[total+1] = true // no cut at all (control)
+	for o := 0; o <= total+1; o++ {
+		if isPrio[o] {
+			prio = append(prio, o)
+		} else {
+			body = append(body, o)
+		}
+	}
 	ord := r.Index
-	offset := ord % (total + 2) // total+1 = no cut at all (control)
-	rest := ord / (total + 2)
+	var offset, rest int
+	if ord%2 == 0 {
+		i := ord / 2
+		offset, rest = prio[i%len(prio)], i/len(prio)
+	} else {
+		i := ord / 2
+		stride := 37
+		for gcd(stride, len(body)) != 1 {
+			stride++
+		}
+		offset, rest = body[(i*stride)%len(body)], i/len(body)+i%4*5
+	}
 	rst := rest%2 == 1
 	late := (rest/2)%2 == 1
 	reverse := (rest/4)%5 == 4 // occasionally cut the listener->dialler direction (handshake reply)
